@@ -13,6 +13,9 @@
 #include <givaro/extension.h>
 #include <givaro/qfield.h>
 #include <givaro/givpoly1.h>
+#include <givaro/givpoly1factor.h>
+#include <givaro/givintrns.h>
+#include <givaro/givrns.h>
 #include <recint/recint.h>
 #include <cstdint>
 #include <functional>
@@ -223,6 +226,108 @@ struct PolyBox : Box {
     std::string xprobe(const Box& src) const override { return xprobe_poly<P_t>(d, static_cast<const PolyBox&>(src).d); }
 };
 
+// ---- residue number systems: the accessors `product()`, `Reciprocals()`, `reciprocal(i)` are const (C18's anchors name their caches) ----
+struct IntRnsBox : Box {
+    typedef IntRNSsystem<std::vector, std::allocator> R;
+    R d;
+    static std::vector<Integer> primes(int i) {
+        return i ? std::vector<Integer>{Integer(1009), Integer(1013), Integer(1019), Integer("18446744073709551557")}
+                 : std::vector<Integer>{Integer(101), Integer(103), Integer(107)};
+    }
+    explicit IntRnsBox(int i) : d(primes(i)) {}
+    IntRnsBox(const IntRnsBox& o) : d(o.d) {}
+    Box* copy() const override { return new IntRnsBox(*this); }
+    void assign(const Box& o) override { d = static_cast<const IntRnsBox&>(o).d; }
+    void selfassign() override { R& alias = d; d = alias; }
+    std::string probe() const override {
+        std::ostringstream os;
+        os << d.product() << ' ';
+        for (const Integer& c : d.Reciprocals()) os << c << ' ';
+        os << d.reciprocal(1) << ' ' << d.ith(0) << ' ' << d.NumOfPrimes() << ' ';
+        R::array mix(d.Primes().size());
+        for (size_t j = 0; j < mix.size(); ++j) mix[j] = Integer(int64_t(j + 2));
+        Integer res; d.MixedRadixToRing(res, mix); os << res;
+        return os.str();
+    }
+    std::string xprobe(const Box& src) const override {      // mixed-radix digits laid out for the source's primes, recombined here
+        const R& g = static_cast<const IntRnsBox&>(src).d;
+        R::array mix(g.Primes().size());
+        for (size_t j = 0; j < mix.size(); ++j) mix[j] = Integer(int64_t(3 * j + 1));
+        Integer res; d.MixedRadixToRing(res, mix);
+        std::ostringstream os; os << res << ' ' << d.product();
+        return os.str();
+    }
+};
+
+struct RnsBox : Box {
+    typedef Modular<int32_t> F_t;
+    typedef RNSsystem<Integer, F_t> R;
+    R d;
+    static R::domains doms(int i) {
+        const int32_t p0[] = {101, 103, 107}, p1[] = {65521, 65519, 65497, 65479};
+        const size_t n = i ? 4 : 3;
+        R::domains D(n);
+        for (size_t j = 0; j < n; ++j) D[j] = F_t(i ? p1[j] : p0[j]);
+        return D;
+    }
+    explicit RnsBox(int i) : d(doms(i)) {}
+    RnsBox(const RnsBox& o) : d(o.d) {}
+    Box* copy() const override { return new RnsBox(*this); }
+    void assign(const Box& o) override { d = static_cast<const RnsBox&>(o).d; }
+    void selfassign() override { R& alias = d; d = alias; }
+    std::string probe() const override {
+        std::ostringstream os;
+        R::array rns(d.Primes().size());
+        d.RingToRns(rns, Integer("123456789012345"));
+        for (size_t j = 0; j < rns.size(); ++j) os << rns[j] << ' ';
+        const R::array& ck = d.Reciprocals();
+        for (size_t j = 1; j < ck.size(); ++j) os << ck[j] << ' ';
+        os << d.reciprocal(1) << ' ' << d.size() << ' ';
+        Integer res; d.MixedRadixToRing(res, rns); os << res;
+        return os.str();
+    }
+    std::string xprobe(const Box& src) const override {
+        const R& g = static_cast<const RnsBox&>(src).d;
+        R::array rns(g.Primes().size());
+        g.RingToRns(rns, Integer("987654321987"));
+        Integer res; d.MixedRadixToRing(res, rns);
+        std::ostringstream os; os << res;
+        return os.str();
+    }
+};
+
+// ---- factorisation domain (holds a `mutable` random generator): the deterministic decision functions only ----
+struct FactorBox : Box {
+    typedef Modular<int32_t> F_t;
+    typedef Poly1FactorDom<F_t, Dense> P_t;
+    P_t d;
+    explicit FactorBox(int i) : d(F_t(i ? 65521 : 101), Indeter("X")) {}
+    FactorBox(const FactorBox& o) : d(o.d) {}
+    Box* copy() const override { return new FactorBox(*this); }
+    void assign(const Box& o) override { d = static_cast<const FactorBox&>(o).d; }
+    void selfassign() override { P_t& alias = d; d = alias; }
+    static void fill(const P_t& P, P_t::Element& A, int k) {
+        const F_t& F = P.getdomain(); F_t::Element e;
+        P.init(A, Degree(3));
+        for (int i = 0; i <= 3; ++i) { F.init(e, Integer(k + 5 * i * i + (i == 3 ? 1 - k - 45 : 0))); A[size_t(i)] = e; }
+    }
+    std::string probe() const override {
+        std::ostringstream os;
+        P_t::Element A, B, R;
+        fill(d, A, 3); fill(d, B, 2);
+        os << (d.is_irreducible(A) ? 1 : 0) << (d.is_irreducible(B) ? 1 : 0) << ' ';
+        d.mul(R, A, B); os << (d.is_irreducible(R) ? 1 : 0) << ' ';
+        d.gcd(R, A, B); d.write(os, R);
+        return os.str();
+    }
+    std::string xprobe(const Box& src) const override {
+        const P_t& g = static_cast<const FactorBox&>(src).d;
+        P_t::Element A; fill(g, A, 3);
+        std::ostringstream os; os << (d.is_irreducible(A) ? 1 : 0);
+        return os.str();
+    }
+};
+
 typedef std::function<Box*(int)> Maker;   // argument: parameter set 0 or 1
 
 // process-wide mode a kind is run in (documented global state of the library, not a property of the object)
@@ -266,6 +371,9 @@ inline const std::map<std::string, Maker>& kinds() {
             for (int j = 0; j < n; ++j) { base.init(e, Integer(c[j])); irr[size_t(j)] = e; }
             return new RingBox<E>(pd, irr); }},
         {"Poly1Dom_Modular_int32", [](int i) -> Box* { return new PolyBox(i ? 65521 : 101); }},
+        {"IntRNSsystem", [](int i) -> Box* { return new IntRnsBox(i); }},
+        {"RNSsystem_Modular_int32", [](int i) -> Box* { return new RnsBox(i); }},
+        {"Poly1FactorDom_Modular_int32", [](int i) -> Box* { return new FactorBox(i); }},
         // no construction parameter; "_noreduce": the harnesses put the process in Rational::SetNoReduce() mode for this kind
         {"QField_Rational", [](int) -> Box* { return new QBox<QField<Rational>>(); }},
         {"QField_Rational_noreduce", [](int) -> Box* { return new QBox<QField<Rational>>(); }},
